@@ -87,8 +87,13 @@ def gen_spec(ch, asgi):
     # a history on the response object: an earlier media document is set and rendered through the
     # public render_body() (what an ETag / signing middleware does) before the final sources are
     # assigned; the final assignment must win
+    s['text_subclass'] = s['text'] is not None and ch.draw(4, 'text_is_str_subclass') == 3
     s['prerender'] = [None, None, None, 'decoy', 'same'][ch.draw(5, 'prerender')] if s['media'] is not None else None
     return s
+
+
+class _Markup(str):
+    pass
 
 
 class StreamBroken(RuntimeError):
@@ -327,6 +332,14 @@ def run(ctx):
             and spec['custom_resp'] != 'bytes' and ctx.opportunity('media_serialize_raises'):
         ser_fail = True
         spec['prerender'] = None
+    # the server's wsgi.file_wrapper refuses the object it is handed (a sendfile-style wrapper asking
+    # an in-memory file for fileno()): "any other Exception" raised while the body is prepared
+    fw_fail = False
+    if iface == 1 and spec['stream'] and 'file' in spec['stream']['kind'] and spec['text'] is None \
+            and spec['data'] is None and spec['media'] is None and spec['custom_resp'] != 'bytes' \
+            and spec['method'] != 'HEAD' and spec['status'][1] not in BODILESS \
+            and ctx.opportunity('file_wrapper_raises'):
+        fw_fail = ser_fail = True          # judged like the other render-time failure: a framed 500
     send_suspends = bool(ch.draw(2, 'send_suspends')) if asgi else False
     ctx.plan = {'iface': ['wsgi', 'wsgi+file_wrapper', 'asgi'][iface], 'spec': spec,
                 'fault': list(fault) if fault else None, 'send_fail': send_fail, 'send_cancel': send_cancel, 'abandon': abandon,
@@ -344,11 +357,12 @@ def run(ctx):
             resp.media = {'stale': 'an earlier document'} if spec['prerender'] == 'decoy' else spec['media']
             yield 'render'
         if spec['text'] is not None:
-            resp.text = spec['text']
+            # a str subclass (markupsafe-style) is a str
+            resp.text = _Markup(spec['text']) if spec.get('text_subclass') else spec['text']
         if spec['data'] is not None:
             resp.data = spec['data'].encode('latin-1')
         if spec['media'] is not None and spec['prerender'] != 'same':
-            resp.media = {'unserializable': object()} if ser_fail else spec['media']
+            resp.media = {'unserializable': object()} if (ser_fail and not fw_fail) else spec['media']
         if spec['stream'] is not None:
             if spec['stream'].get('set_stream'):
                 # set_stream(stream, content_length): the declared length goes out as Content-Length
@@ -504,6 +518,8 @@ def run(ctx):
             ctx.probe('file_wrapper')
 
             def fw(f, blk=8192):
+                if fw_fail:
+                    raise TypeError('this wsgi.file_wrapper needs an object with fileno()')
                 w = FileWrapper(f, blk)
                 wrappers.append(w)
                 return w
